@@ -1,4 +1,5 @@
 import OrdModel.Proofs.TextOutgoing
+import OrdModel.Proofs.TextSigned
 import OrdModel.Proofs.TextDecimalFixed
 import OrdModel.Theorems.C31Rune
 /-!
@@ -119,25 +120,35 @@ theorem c31_inscription_id_sound (s : List Char) (v : InscriptionId.Val)
     (h : InscriptionId.parse s = .ok v) : InscriptionId.Denotes s v :=
   InscriptionId.parse_ok_denotes h
 
-/-! ## `Outgoing::from_str` -/
+/-! ## `Outgoing::from_str`
 
-/-- **false of the current code**: the rune-amount alternative inherits the shift-overflow panic of
-`SpacedRune::from_str` (the rune work stream's finding).  (Before `notes/fix-decimal.diff` it also
-inherited the overflow panics of `Decimal::from_str`; with the repaired parser that input is an
-error.) -/
+`Outgoing.parseWith fixed` / `Query.parseRuneWith fixed`: `fixed` says whether the SpacedRune repair
+(`notes/fix-spaced-rune-shl.diff`) is present; `Outgoing.parse` / `Query.parseRune` take the flag
+from `Generated/SpacedRuneFix.lean`, re-extracted from /repo on every run. -/
+
+/-- **false of the unrepaired code**: the rune-amount alternative inherits the shift-overflow panic
+of `SpacedRune::from_str` (the rune work stream's finding).  (Before `notes/fix-decimal.diff` it
+also inherited the overflow panics of `Decimal::from_str`; that input is now an error.) -/
 theorem c31_outgoing_no_panic_fails :
-    Outgoing.parse "1:AAAAAAAAAAAAAAAAAAAAAAAAAAAAAAAAA.A".toList = .panic "shl@1<<(rune.len()-1)" ∧
-    Outgoing.parse "340282366920938463463374607431768211455.5:A".toList =
+    Outgoing.parseWith false "1:AAAAAAAAAAAAAAAAAAAAAAAAAAAAAAAAA.A".toList = .panic "shl@1<<(rune.len()-1)" ∧
+    Outgoing.parseWith false "340282366920938463463374607431768211455.5:A".toList =
       .err "rune-amount:decimal out of range" := by
   refine ⟨by decide, by decide⟩
 
 /-- every panic of `Outgoing::from_str` is a panic of `SpacedRune::from_str` on the name captured
 by the RUNE regex; all other alternatives (and the decimal amount) are total -/
-theorem c31_outgoing_no_panic_partial (s : List Char) (site : String)
-    (h : Outgoing.parse s = .panic site) :
+theorem c31_outgoing_no_panic_partial (fixed : Bool) (s : List Char) (site : String)
+    (h : Outgoing.parseWith fixed s = .panic site) :
     ∃ num name, Regex.runeCaptures s = some (num, name) ∧
-      Sub.spacedRuneFromStr name = .panic site :=
-  Outgoing.parse_panic_only_rune s site h
+      Sub.spacedRuneFromStrWith fixed name = .panic site :=
+  Outgoing.parse_panic_only_rune fixed s site h
+
+/-- full statement once the SpacedRune repair is present: no panic for any string -/
+theorem c31_outgoing_total_fixed (s : List Char) (site : String) :
+    Outgoing.parseWith true s ≠ .panic site := by
+  intro h
+  obtain ⟨_, name, _, hp⟩ := Outgoing.parse_panic_only_rune true s site h
+  exact Sub.spacedRuneFromStrWith_true_ne_panic name site hp
 
 theorem c31_outgoing_sound_satpoint (s : List Char) (v : SatPoint.Val)
     (h : Outgoing.parse s = .ok (.satPoint v)) : SatPoint.Denotes s v :=
@@ -166,14 +177,26 @@ theorem c31_query_inscription_sound_id (s : List Char) (v : InscriptionId.Val)
     (h : Query.parseInscription s = .ok (.id v)) : InscriptionId.Denotes s v :=
   Query.parseInscription_ok_id h
 
-/-- **false of the unchanged code** (inherited from `SpacedRune::from_str`) -/
+/-- an accepted inscription number is a signed decimal numeral (optional `+`/`-`) with exactly that
+value, within `i32` -/
+theorem c31_query_inscription_sound_number (s : List Char) (z : Int)
+    (h : Query.parseInscription s = .ok (.number z)) :
+    SignedNumeral s z ∧ -(2 : Int) ^ 31 ≤ z ∧ z < (2 : Int) ^ 31 :=
+  Query.parseInscription_ok_number h
+
+/-- **false of the unrepaired code** (inherited from `SpacedRune::from_str`) -/
 theorem c31_query_rune_no_panic_fails :
-    Query.parseRune "AAAAAAAAAAAAAAAAAAAAAAAAAAAAAAAAA.A".toList = .panic "shl@1<<(rune.len()-1)" := by
+    Query.parseRuneWith false "AAAAAAAAAAAAAAAAAAAAAAAAAAAAAAAAA.A".toList = .panic "shl@1<<(rune.len()-1)" := by
   decide
 
-theorem c31_query_rune_no_panic_partial (s : List Char) (site : String)
-    (h : Query.parseRune s = .panic site) : Sub.spacedRuneFromStr s = .panic site :=
-  Query.parseRune_panic_only_spaced s site h
+theorem c31_query_rune_no_panic_partial (fixed : Bool) (s : List Char) (site : String)
+    (h : Query.parseRuneWith fixed s = .panic site) : Sub.spacedRuneFromStrWith fixed s = .panic site :=
+  Query.parseRune_panic_only_spaced fixed s site h
+
+/-- full statement once the SpacedRune repair is present -/
+theorem c31_query_rune_total_fixed (s : List Char) (site : String) :
+    Query.parseRuneWith true s ≠ .panic site := fun h =>
+  Sub.spacedRuneFromStrWith_true_ne_panic s site (Query.parseRune_panic_only_spaced true s site h)
 
 theorem c31_query_rune_sound (s : List Char) :
     (∀ b t, Query.parseRune s = .ok (.id b t) →
@@ -192,10 +215,12 @@ example : InscriptionId.parse ("000000000019d6689c085ae165831e934ff763ae46a2a6c1
     .err "character" := by decide
 example : Decimal.fromStr "123.4560".toList = .ok ⟨123456, 3⟩ := by decide
 example : DecimalFixed.fromStr "123.4560".toList = .ok ⟨123456, 3⟩ := by decide
-example : Outgoing.parse "1.5 : UNCOMMON•GOODS".toList = .ok (.rune 15 1 2055900680524219742 128) := by decide
-example : Outgoing.parse "nvtdijuwxlp".toList = .ok (.sat 0) := by decide
+example : Outgoing.parseWith false "1.5 : UNCOMMON•GOODS".toList = .ok (.rune 15 1 2055900680524219742 128) := by decide
+example : Outgoing.parseWith true "1.5 : UNCOMMON•GOODS".toList = .ok (.rune 15 1 2055900680524219742 128) := by decide
+example : Outgoing.parseWith true "1:AAAAAAAAAAAAAAAAAAAAAAAAAAAAAAAAA.A".toList = .err "rune:range" := by decide
+example : Outgoing.parseWith false "nvtdijuwxlp".toList = .ok (.sat 0) := by decide
 example : Query.parseBlock "840000".toList = .ok (.height 840000) := by decide
-example : Query.parseRune "840000:1".toList = .ok (.id 840000 1) := by decide
+example : Query.parseRuneWith false "840000:1".toList = .ok (.id 840000 1) := by decide
 example : Query.parseInscription "-2147483648".toList = .ok (.number (-2147483648)) := by decide
 
 end Ord.C31
